@@ -218,6 +218,48 @@ async def sk_inbox_named_by_other_spellings(hp, w, rnd, ctx):
     await w.observe()
 
 
+async def sk_two_digit_numbers_across_a_restart(hp, w, rnd, ctx):
+    """Mailboxes whose message numbers and UIDs run into two digits and do not
+    start at 1 (the first message is gone), some flagged \\Deleted; an orderly
+    restart; then UID EXPUNGE / EXPUNGE / MOVE: they take the messages addressed,
+    as if the restart had not happened."""
+    # (UIDs that changed over the restart are other properties' witnesses; what is asked here is what gets removed)
+    w.foreign_violations = []
+    w.continue_past_foreign = ["C05"]
+    a = w.session()
+    await w.op_create(a, "other")
+    for i in range(13):
+        await w.op_append(a, "INBOX", flags=rnd.choice([None, ["\\Seen"]]))
+    for i in range(11):
+        await w.op_append(a, "other", flags=rnd.choice([None, ["\\Seen"], ["kw1"]]))
+    await w.op_select(a, "INBOX")
+    await w.op_store(a, [1], "add", ["\\Deleted"])
+    await w.op_expunge(a)
+    await w.op_store(a, [3, 4, 5, 6, 7, 8, 9, 10, 11, 12], "add", ["\\Deleted"], silent=True)
+    await w.op_store(a, [4, 9], "remove", ["\\Deleted"])
+    await w.op_select(a, "other")
+    await w.op_store(a, [1, 2], "add", ["\\Deleted"])
+    await w.op_expunge(a)
+    await w.observe()
+    await w.restart()
+    a, b2 = w.session(), w.session()
+    await w.observe()
+    await w.op_select(a, "INBOX")
+    await w.op_select(b2, "INBOX")
+    us = [m.uid for m in w.boxes["INBOX"].msgs if m.uid is not None]
+    await w.op_expunge(a, uids=[us[-1], us[2]])
+    await w.observe()
+    await w.op_noop(b2)
+    await w.op_copy(b2, [us[0], us[3]], "other", uid_mode=True, move=True)
+    await w.observe()
+    await w.op_expunge(a)
+    await w.observe()
+    await w.op_select(a, "other")
+    await w.op_store(a, [9], "add", ["\\Deleted"])
+    await w.op_expunge(a)
+    await w.observe()
+
+
 async def sk_expunge_after_a_pack(hp, w, rnd, ctx):
     """A lower block of messages is expunged so that the folder qualifies for
     packing (threshold lowered for this script); single messages further up are
@@ -255,9 +297,9 @@ async def sk_expunge_after_a_pack(hp, w, rnd, ctx):
 
 class C05(HistProp):
     prop = PROP
-    pack_limits = [100, 100, 100, 100, 6, 100, 100, 4, 100]
+    pack_limits = [100, 100, 100, 100, 6, 100, 100, 4, 100, 100]
     names = ["INBOX", "other"]
-    skeletons = [sk_uid_expunge_sparse, sk_examine_session, sk_copy_same_mailbox_and_missing, sk_placeholder_destination, sk_move_naming_nothing, sk_rename_inbox_then_arrivals, sk_pop3_quit_after_imap_expunge, sk_expunge_after_a_pack, sk_inbox_named_by_other_spellings]
+    skeletons = [sk_uid_expunge_sparse, sk_examine_session, sk_copy_same_mailbox_and_missing, sk_placeholder_destination, sk_move_naming_nothing, sk_rename_inbox_then_arrivals, sk_pop3_quit_after_imap_expunge, sk_expunge_after_a_pack, sk_inbox_named_by_other_spellings, sk_two_digit_numbers_across_a_restart]
     weights = {"append": 9, "store_del": 10, "store": 4, "uid_store": 3, "expunge": 8, "uid_expunge": 7, "copy": 7, "uid_copy": 5, "move": 6, "uid_move": 4,
                "close": 4, "examine": 4, "fetch_body": 3, "deliver": 2, "noop": 4, "idle": 1, "advance": 2}
     opts = {"examine_prob": 0.3}
